@@ -81,13 +81,16 @@ def main(ctx):
     from harness.drivers import chan_raw
     values = (0, 1, 2, 0xffffffff) if quick else \
         (0, 1, 2, 3, 255, 256, 32768, 0x7fffffff, 0xffffffff)
-    for case, bad in chan_raw.extreme_size_cases(values):
-        ctx.count(('extreme', case['window'], case['pktsize']))
+    for case, bad in chan_raw.extreme_size_cases(
+            values, quirks=('none', 'dropbear_zlib')):
+        ctx.count(('extreme', case['window'], case['pktsize'], case['quirk']))
         mine = [b for b in bad if b.startswith('C08')]
         if mine:
             ctx.violation({'module': 'ChannelRaw', 'kind': 'extreme',
                            'window': case['window'],
-                           'pktsize': case['pktsize']}, '; '.join(mine),
+                           'pktsize': case['pktsize'],
+                           'quirk': case['quirk']},
+                          f'peer {case["quirk"]}: ' + '; '.join(mine),
                           replay={'kind': 'extreme', **case})
     for window in ((100,) if quick else (1, 2, 100, 65536)):
         for case, bad in chan_raw.excess_cases(window):
